@@ -121,7 +121,7 @@ class HSM2Protocol:
 
         command = request[self.COMMAND_KEY]
         self.logger.debug("Cmd: %s", command)
-        if command not in self._known_commands:
+        if type(command) != str or command not in self._known_commands:
             return self._command_unknown()
 
         # Perform generic input validation
